@@ -695,7 +695,16 @@ func (se *symExec) execAssign(x *ast.AssignStmt, st *sstate) []*sstate {
 						v = e.v
 					} else if i == 1 {
 						// the comma-ok flag of a map lookup / channel receive
-						v = val{kind: vBool, desc: "has(" + se.canon(x.Rhs[0]) + ")"}
+						txt := se.canon(x.Rhs[0])
+						if ix, ok := unparen(x.Rhs[0]).(*ast.IndexExpr); ok {
+							// a named string constant as the key is shown by value, as it is where the element is read
+							if tv, ok := se.info.Types[ix.Index]; ok && tv.Value != nil && tv.Value.Kind() == constant.String {
+								if _, lit := unparen(ix.Index).(*ast.BasicLit); !lit {
+									txt = se.canon(ix.X) + "[" + tv.Value.ExactString() + "]"
+								}
+							}
+						}
+						v = val{kind: vBool, desc: "has(" + txt + ")"}
 					}
 					se.assignTo(l, v, e.st, x.Pos(), se.canon(x.Rhs[0]))
 				}
